@@ -297,7 +297,14 @@ static void spline_monitor(Report & rep)
       n->T            = T0;
       n->ga           = elemL(l, ga);
       char buf[200];
-      if (kind == 0) {
+      if (r.coin(0.08)) {
+        // the empty spline that starts (and stays) at ga: a zero-length operand with a non-identity start
+        n->kind = Node::Empty;
+        n->T    = 0;
+        x.lib   = smooth::Spline<K, G>(ga);
+        snprintf(buf, sizeof buf, "Empty(ga)");
+        rep.count("C12.empty_base");
+      } else if (kind == 0) {
         Eigen::Matrix<S, D, K> V;
         for (int j = 0; j < K; ++j) {
           const Vec v = rand_tangent(r, 1.0 / K);
